@@ -290,6 +290,14 @@ def families(tier, seed):
         out.append((f"function/{fn}", t, {}))
         if ar == 2:
             out.append((f"function/{fn}/arrays", ("call", fn, [a, L(2) if fn == "fmod" else b]), {"arrays": True}))
+    # the constant pi in every argument position of calls (bare `pi` in the minimal printing, `pi()` in the full one)
+    PI = ("call", "pi", [])
+    out.append(("constant/pi/first-argument", ("call", "max", [PI, a]), {}))
+    out.append(("constant/pi/second-argument", ("call", "min", [a, PI]), {}))
+    out.append(("constant/pi/end-of-first-argument", ("call", "atan2", [("bin", "*", b, PI), a]), {}))
+    out.append(("constant/pi/sum-in-first-argument", ("bin", "+", ("call", "pow", [("bin", "+", a, PI), L(2)]), ("call", "max", [("bin", "/", ("call", "min", [a, b]), PI), ("call", "sin", [a])])), {}))
+    out.append(("constant/pi/unary", ("call", "cos", [PI]), {}))
+    out.append(("constant/pi/alone", ("bin", "-", PI, ("un", ".-", PI)), {}))
     # relational indicators inside arithmetic (as the shipped examples do)
     out.append(("indicators/sum", ("bin", "+", ("call", "eq", [a, L(1)]), ("call", "eq", [b, L(1)])), {}))
     out.append(("indicators/difference", ("bin", "-", ("call", "ge", [a, b]), ("call", "le", [a, c])), {}))
